@@ -228,6 +228,24 @@ func (p *Party) nextNonce() client.ProposalOpts {
 	return client.WithNonce(n)
 }
 
+// funderOverride, when set by a driver before NewWorld, replaces the stub funder of party i
+// (nil result: keep the stub). Reset by the driver afterwards.
+var funderOverride func(i int) channel.Funder
+
+// gatedFunder blocks Fund for a channel until the driver opens the gate for it: the party stays
+// in the funding phase of that opening (its channel is not yet registered with its client).
+type gatedFunder struct {
+	open    map[channel.ID]bool
+	pending []channel.ID
+}
+
+func (g *gatedFunder) Fund(_ context.Context, req channel.FundingReq) error {
+	id := req.Params.ID()
+	g.pending = append(g.pending, id)
+	vsched.WaitCond("gated-fund", func() bool { return g.open[id] })
+	return nil
+}
+
 // NewWorld creates n real clients. With ledger != nil the clients fund / register / withdraw on
 // the strict ledger and run the real watcher on top of it.
 func NewWorld(n int, ledger *Ledger, watch bool) *World {
@@ -243,6 +261,10 @@ func NewWorld(n int, ledger *Ledger, watch bool) *World {
 		if ledger != nil {
 			p.LP = ledger.party(acc.Address(), 100)
 			funder, adj = p.LP, p.LP
+		} else if funderOverride != nil {
+			if f := funderOverride(i); f != nil {
+				funder = f
+			}
 		}
 		wt, err := local.NewWatcher(adj)
 		if err != nil {
